@@ -29,6 +29,7 @@ def main(tier: str) -> int:
         states += gst["states"]
         trans += gst["transitions"]
     cases, stats = campaign.writer_campaign(tier, seed, parse_entries=("flat", "to_graph"))
+    cases += campaign.empty_sequence_cases("generic")       # "any sequence" includes the empty one
     judged = 0
     samples = []
     for case in cases:
